@@ -4,6 +4,8 @@ import (
 	"sync"
 	"sync/atomic"
 	"testing"
+
+	"golang.org/x/sync/errgroup"
 )
 
 type box struct{ x int }
@@ -405,4 +407,53 @@ func TestAtomicSandwichFindsTwoAtomicsBug(t *testing.T) {
 		t.Fatalf("schedules that expose the two-atomics memo: %v of 40 each", found)
 	}
 	t.Logf("exposing schedules out of 40: %v", found)
+}
+
+func egWorkload(n, limit int) []int {
+	out := make([]int, n)
+	var g errgroup.Group
+	EGSetLimit(&g, limit)
+	for i := 0; i < n; i++ {
+		EGGo(&g, func() error {
+			for k := 0; k < 20; k++ {
+				Yield(int32(k))
+				out[i]++
+			}
+			return nil
+		})
+	}
+	if err := EGWait(&g); err != nil {
+		panic(err)
+	}
+	return out
+}
+
+func TestErrgroup(t *testing.T) {
+	for seed := uint64(1); seed < 30; seed++ {
+		for ci, cfg := range []*SchedConfig{
+			{Strategy: StratPrio, PrioRule: PrioMainFirst},
+			{Strategy: StratPrio, PrioRule: PrioRandom, PrioSeed: seed, ChangePoints: []int64{int64(seed * 3)}},
+			{Strategy: StratRW, RWSeed: seed, RWMeanGap: 5},
+		} {
+			run := func() ([]int, SchedStats) {
+				Start(cfg)
+				o := egWorkload(9, 3)
+				Drain()
+				return o, Stop()
+			}
+			o1, s1 := run()
+			_, s2 := run()
+			for _, v := range o1 {
+				if v != 20 {
+					t.Fatalf("seed %d cfg %d: %v", seed, ci, o1)
+				}
+			}
+			if s1.Hash != s2.Hash || s1.Steps != s2.Steps {
+				t.Fatalf("seed %d cfg %d: errgroup run not deterministic", seed, ci)
+			}
+			if s1.MaxLive > 4 {
+				t.Fatalf("limit 3 not honoured: %d live tasks", s1.MaxLive)
+			}
+		}
+	}
 }
